@@ -44,6 +44,22 @@ GROUPS = {
               for klass, name in (("OrthogonalMooreGrid", "moore"), ("OrthogonalVonNeumannGrid", "vn"), ("HexGrid", "hex"))],
         ],
     },
+    "CellOcc": {
+        # the occupancy mutators of cell.py on a record standing for one cell; agents are named by creation index (a Nat, as in
+        # the hand-written model Model/CellSpace.lean), `raise` is `Except`, the state attributes come back after the value
+        "namespace": "Mesa.Cells.GenOcc",
+        "path": "MesaModel/Gen/FnCellOcc.lean",
+        "recs": [Rec("CellRec", {"_agents": ("L", "Nat"), "capacity": ("O", "Int"), "empty": "Bool"})],
+        "fns": [
+            Fn("C06", "mesa/discrete_space/cell.py", "Cell.agents", "agents", {}, self_rec="CellRec"),
+            Fn("C06", "mesa/discrete_space/cell.py", "Cell.is_empty", "is_empty", {}, self_rec="CellRec", props={"agents": "agents"}),
+            Fn("C06", "mesa/discrete_space/cell.py", "Cell.is_full", "is_full", {}, self_rec="CellRec", props={"agents": "agents"}),
+            Fn("C06", "mesa/discrete_space/cell.py", "Cell.add_agent", "add_agent", {"agent": "Nat"}, self_rec="CellRec",
+               state={"self._agents": ("L", "Nat"), "self.empty": "Bool"}),
+            Fn("C06", "mesa/discrete_space/cell.py", "Cell.remove_agent", "remove_agent", {"agent": "Nat"}, self_rec="CellRec",
+               state={"self._agents": ("L", "Nat"), "self.empty": "Bool"}, props={"is_empty": "is_empty"}, list_remove_raises=True),
+        ],
+    },
     "Legacy": {
         "namespace": "Mesa.Legacy.GenFn",
         "path": "MesaModel/Gen/FnLegacy.lean",
@@ -103,6 +119,15 @@ GROUPS = {
 }
 
 REGISTRY = {
+    "C06": {
+        "groups": ["CellOcc"],
+        "functions": ["Cell.agents", "Cell.is_empty", "Cell.is_full", "Cell.add_agent", "Cell.remove_agent"],
+        "lean_modules": ["MesaModel.Proofs.XlateCellOcc"],
+        "theorems": ["Mesa.Cells." + t for t in (
+            "C06_gen_agents_eq_model", "C06_gen_is_empty_eq_model", "C06_gen_is_full_eq_model", "C06_gen_add_agent_eq_model",
+            "C06_gen_remove_agent_eq_model", "C06_model_mutators_are_generated", "C06_capacity_generated",
+            "C06_empty_flag_generated", "C18_cells_rejected_mutator_generated")],
+    },
     "C05": {
         "groups": ["Steps"],
         "functions": ["Model._wrapped_step"],
